@@ -3,6 +3,7 @@
 package main
 
 import (
+	"github.com/lestrrat-go/jwx/v2/jwk"
 	"crypto"
 	"crypto/hmac"
 	"crypto/rand"
@@ -28,7 +29,7 @@ type tokPoint struct {
 }
 
 var c03Dims = map[string][]string{
-	"sig":   {"good", "otherkey", "none", "hs256pub", "garbage", "noidtoken"},
+	"sig":   {"good", "otherkey", "none", "hs256pub", "garbage", "noidtoken", "rs512key", "enckey"},
 	"iss":   {"ok", "wrong", "absent"},
 	"aud":   {"client", "other", "client+untrusted", "client+trusted", "absent", "client+trusted+untrusted", "untrusted+client"},
 	"exp":   {"+60", "-3", "-7", "absent"},
@@ -109,6 +110,7 @@ func runC03(c *ctx) {
 		}
 		s := newSut(o)
 		s.idp.jwksNoAlg = cv.noAlg
+		s.idp.extraJwks = c03ExtraJwks()
 		rp := s.replica("A")
 		basURL := "http://wonderwall"
 		for pi, p := range points {
@@ -212,6 +214,10 @@ func (ip *fakeIdp) mintJWS(kind string, claims map[string]any) string {
 	}
 	hdr := map[string]any{"typ": "JWT", "kid": k.KeyID(), "alg": "RS256"}
 	switch kind {
+	case "rs512key": // RS256 signature by a key the provider publishes for ANOTHER algorithm
+		hdr["kid"] = "rs512-key"
+	case "enckey": // RS256 signature by a published ENCRYPTION key
+		hdr["kid"] = "enc-key"
 	case "none":
 		hdr["alg"] = "none"
 	case "hs256pub":
@@ -225,7 +231,7 @@ func (ip *fakeIdp) mintJWS(kind string, claims map[string]any) string {
 	case "good", "noidtoken":
 		sig, _ := rsa.SignPKCS1v15(rand.Reader, &priv, crypto.SHA256, h[:])
 		return signing + "." + b64(sig)
-	case "otherkey":
+	case "otherkey", "rs512key", "enckey":
 		sig, _ := rsa.SignPKCS1v15(rand.Reader, otherRSA, crypto.SHA256, h[:])
 		return signing + "." + b64(sig)
 	case "none":
@@ -241,4 +247,25 @@ func (ip *fakeIdp) mintJWS(kind string, claims map[string]any) string {
 		rand.Read(sig)
 		return signing + "." + b64(sig)
 	}
+}
+
+// c03ExtraJwks: the public half of otherRSA published twice - as a signing key for RS512 and as an encryption key. A token signed RS256 with that
+// key must not be accepted: a published key is only usable with its own algorithm / use.
+func c03ExtraJwks() []map[string]any {
+	if otherRSA == nil {
+		otherRSA, _ = rsa.GenerateKey(rand.Reader, 2048)
+	}
+	var out []map[string]any
+	for _, v := range [][3]string{{"rs512-key", "RS512", "sig"}, {"enc-key", "RSA-OAEP-256", "enc"}} {
+		k, err := jwk.FromRaw(&otherRSA.PublicKey)
+		if err != nil {
+			panic(err)
+		}
+		b, _ := json.Marshal(k)
+		var m map[string]any
+		json.Unmarshal(b, &m)
+		m["kid"], m["alg"], m["use"] = v[0], v[1], v[2]
+		out = append(out, m)
+	}
+	return out
 }
